@@ -14,8 +14,8 @@ use crate::{
     debug_pretty_print::DebugPrettyPrint,
     relations::{insert_last_unchecked, insert_with_neighbors},
     siblings_range::SiblingsRange,
-    Ancestors, Arena, Children, Descendants, FollowingSiblings, NodeError, PrecedingSiblings,
-    Predecessors, ReverseChildren, ReverseTraverse, Traverse,
+    Ancestors, Arena, Children, Descendants, FollowingSiblings, NodeEdge, NodeError,
+    PrecedingSiblings, Predecessors, ReverseChildren, ReverseTraverse, Traverse,
 };
 
 #[derive(PartialEq, Eq, PartialOrd, Ord, Copy, Clone, Debug, Hash)]
@@ -1196,17 +1196,26 @@ impl NodeId {
     pub fn remove_subtree<T>(self, arena: &mut Arena<T>) {
         self.detach(arena);
 
-        // use a preorder traversal to remove node.
-        let mut cursor = Some(self);
-        while let Some(id) = cursor {
-            arena.free_node(id);
-            let node = &arena[id];
-            cursor = node.first_child.or(node.next_sibling).or_else(|| {
-                id.ancestors(arena) // traverse ancestors upwards
-                    .skip(1) // skip the starting node itself
-                    .find(|n| arena[*n].next_sibling.is_some()) // first ancestor with a sibling
-                    .and_then(|n| arena[n].next_sibling) // the sibling is the new cursor
-            });
+        // Free the nodes in preorder (when entering them) and clear the links
+        // of a node once its subtree has been left.
+        let mut cursor = Some(NodeEdge::Start(self));
+        while let Some(edge) = cursor {
+            cursor = if edge == NodeEdge::End(self) {
+                None
+            } else {
+                edge.next_traverse(arena)
+            };
+            match edge {
+                NodeEdge::Start(id) => arena.free_node(id),
+                NodeEdge::End(id) => {
+                    let node = &mut arena[id];
+                    node.parent = None;
+                    node.previous_sibling = None;
+                    node.next_sibling = None;
+                    node.first_child = None;
+                    node.last_child = None;
+                }
+            }
         }
     }
 
